@@ -48,7 +48,7 @@ def realizeGlobalInt (r : ConstRet) : Except Err Int :=
 
 /-- Declaration kinds that produce an integer `_cffi_const_` function in API mode. -/
 inductive Kind where
-  | macro        -- `#define NAME value`
+  | define        -- `#define NAME value`
   | enumerator   -- `enum { NAME = value }`
   | constant     -- `static const T NAME;`
   deriving Repr, DecidableEq
@@ -57,7 +57,7 @@ inductive Kind where
     `cdefValue = none` is the `...` form (`#define NAME ...`, `NAME = ...`). -/
 def declCheck (k : Kind) (cdefValue : Option Int) : Option Int :=
   match k with
-  | .macro => if CheckIntSrc.macro_decl_checks_value then cdefValue else none
+  | .define => if CheckIntSrc.macro_decl_checks_value then cdefValue else none
   | .enumerator => if CheckIntSrc.enum_decl_checks_value then cdefValue else none
   | .constant => if CheckIntSrc.constant_decl_checks_value then cdefValue else none
 
